@@ -3,6 +3,7 @@ import vlib
 SPEC = {
     "props_module": "C02",
     "model_vo": "theories/C02/Model.vo",
+    "check_fn": "C02.History.check_case_t",
     "bin": "c02",
     "n": {"quick": 200, "thorough": 2500},
     "rule": "engine c02: histories (quick 8-29 calls, thorough 15-59) with one writer handle alive at a time on the real "
